@@ -24,7 +24,7 @@ func (c *vpCtx) Cancel()          { c.cancel() }
 
 // VPHandle runs the real connection loop on conn with handler h.
 func VPHandle(ctx context.Context, conn net.Conn, secret []byte, l loggerProvider, h Handler) {
-	s := &Server{loggerProvider: l}
+	s := NewServer(l, nil)
 	s.handle(ctx, newCrypter(secret, conn, false), h)
 }
 
